@@ -113,6 +113,19 @@ theorem savable_writes_class_name_partial :
 theorem fields_saved_superset_loaded :
     ∀ c ∈ Gen.Corr.all, ∀ f ∈ Gen.loaded c, f ∈ Gen.saved c := by decide
 
+/-- **Attribute provenance of the savable corrections** (AST of the classes): every attribute of `self` that
+`correct_array` reads (transitively through the methods it calls) is stored by `load` (transitively: e.g.
+`_init_from_config`) or by the constructor that `read_correction` runs without arguments — no state the output
+depends on is left unset or stale by the generic reader. (Syntactic: branches are not distinguished.) -/
+theorem correct_reads_are_restored :
+    ∀ c ∈ Gen.Corr.all, Gen.implementsSave c = true → Gen.writesClassName c = true →
+      ∀ a ∈ Gen.correctReads c, a ∈ Gen.loadStores c ∨ a ∈ Gen.initStores c := by decide
+
+/-- and `load` restores something `correct_array` uses, for each of them (the saved file is not decorative) -/
+theorem load_restores_used_state :
+    ∀ c ∈ Gen.Corr.all, Gen.implementsSave c = true → Gen.writesClassName c = true →
+      ∃ a ∈ Gen.loadStores c, a ∈ Gen.correctReads c := by decide
+
 /-- non-vacuity: a value domain with well-behaved helpers exists (numbers: 0 = None, 1 = True, 9 = False, ...) and an
 image built by the optical constructor from it satisfies the invariant -/
 def natSem : Sem Nat :=
